@@ -820,3 +820,498 @@ Proof.
     + destruct Ha as [Hin Heq]. rewrite Hin, Heq. reflexivity.
     + rewrite Ha. reflexivity.
 Qed.
+
+(* ================================================================== *)
+(* big endian = little endian on the reversed slice                    *)
+(* ================================================================== *)
+
+Lemma rev_sub_bytes (l : list Z) s c : (s + c <= length l)%nat ->
+  rev (sub_bytes l s c) = sub_bytes (rev l) (length l - s - c) c.
+Proof.
+  intros H. unfold sub_bytes. rewrite skipn_rev.
+  replace (length l - (length l - s - c))%nat with (s + c)%nat by lia.
+  rewrite firstn_rev, firstn_length. replace (Nat.min (s + c) (length l) - c)%nat with s by lia.
+  rewrite firstn_skipn_comm. reflexivity.
+Qed.
+
+Lemma be_digit_rev db (bs : list Z) i : ((i + 1) * db <= length bs)%nat ->
+  u_from_be_bytes (sub_bytes bs (length bs - db - i * db) db) = le_digit db (rev bs) i.
+Proof.
+  intros H. unfold le_digit. rewrite u_from_be_bytes_value, u_from_le_bytes_value, be_value_rev.
+  rewrite rev_sub_bytes by lia. f_equal. f_equal. lia.
+Qed.
+
+Lemma be_partial_rev db (bs : list Z) pad : (0 < db)%nat ->
+  let len := length bs in
+  u_from_be_bytes (repeat pad (db - len mod db) ++ firstn (len mod db) bs) =
+  u_from_le_bytes (skipn (len / db * db) (rev bs) ++ repeat pad (db - (len - len / db * db))).
+Proof.
+  intros Hdb len. destruct (divmod_facts db len Hdb) as [Hdm Hlt].
+  rewrite u_from_be_bytes_value, u_from_le_bytes_value, be_value_rev, rev_app_distr, rev_repeat.
+  rewrite skipn_rev. fold len.
+  replace (len - len / db * db)%nat with (len mod db)%nat by lia. reflexivity.
+Qed.
+
+Lemma be_digits_rev w (bs : list Z) : width_ok w ->
+  map (fun i => u_from_be_bytes (sub_bytes bs (length bs - dbytes w - i * dbytes w) (dbytes w)))
+      (seq 0 (length bs / dbytes w)) =
+  map (fun i => u_from_le_bytes (sub_bytes (rev bs) (i * dbytes w) (dbytes w))) (seq 0 (length bs / dbytes w)).
+Proof.
+  intros Hw. destruct (width_db w Hw) as [_ Hdb].
+  destruct (divmod_facts (dbytes w) (length bs) Hdb) as [Hdm Hlt].
+  apply map_seq_ext. intros k Hk. apply be_digit_rev. nia.
+Qed.
+
+Lemma U_from_be_slice_rev w n bs : width_ok w -> U_from_be_slice w n bs = U_from_le_slice w n (rev bs).
+Proof.
+  intros Hw. destruct (width_db w Hw) as [_ Hdb].
+  unfold U_from_be_slice, U_from_le_slice. rewrite rev_length, !slice_loop_store, be_digits_rev by assumption.
+  destruct (store_list _ _ _ _); [|reflexivity].
+  destruct (length bs mod dbytes w =? 0)%nat; [reflexivity|].
+  rewrite (be_partial_rev (dbytes w) bs 0 Hdb). reflexivity.
+Qed.
+
+Lemma I_from_be_slice_rev w n bs : width_ok w -> I_from_be_slice w n bs = I_from_le_slice w n (rev bs).
+Proof.
+  intros Hw. destruct (width_db w Hw) as [_ Hdb].
+  unfold I_from_be_slice, I_from_le_slice. rewrite rev_length.
+  destruct (Nat.eqb_spec (length bs) 0) as [E|Hne]; [reflexivity|].
+  rewrite rev_nth by lia. replace (length bs - S (length bs - 1))%nat with 0%nat by lia.
+  set (neg := byte_is_negative (nth 0 bs 0)).
+  replace (if neg then repeat (u_max w) n else repeat 0 n) with (repeat (if neg then u_max w else 0) n)
+    by (destruct neg; reflexivity).
+  rewrite !slice_loop_store, be_digits_rev by assumption.
+  destruct (store_list _ _ _ _); [|reflexivity].
+  destruct (length bs mod dbytes w =? 0)%nat; [reflexivity|].
+  rewrite (be_partial_rev (dbytes w) bs _ Hdb). reflexivity.
+Qed.
+
+Lemma le_value_rev bs : le_value (rev bs) = be_value bs.
+Proof. unfold le_value. rewrite rev_involutive. reflexivity. Qed.
+
+Lemma le_signed_value_rev bs : le_signed_value (rev bs) = be_signed_value bs.
+Proof. unfold le_signed_value. rewrite rev_involutive. reflexivity. Qed.
+
+Theorem U_from_be_slice_ok w n bs : width_ok w -> bytes_ok bs ->
+  U_from_be_slice w n bs =
+  if be_value bs <? Mod w n then Some (digits_of w n (be_value bs)) else None.
+Proof.
+  intros Hw Hb. rewrite U_from_be_slice_rev, U_from_le_slice_ok, le_value_rev by (auto using bytes_ok_rev).
+  reflexivity.
+Qed.
+
+Theorem I_from_be_slice_ok w n bs : width_ok w -> (1 <= n)%nat -> bytes_ok bs ->
+  I_from_be_slice w n bs =
+  if inS (Mod w n) (be_signed_value bs)
+  then Some (digits_of w n (be_signed_value bs mod Mod w n)) else None.
+Proof.
+  intros Hw Hn Hb. rewrite I_from_be_slice_rev, I_from_le_slice_ok, le_signed_value_rev by (auto using bytes_ok_rev).
+  reflexivity.
+Qed.
+
+(* ================================================================== *)
+(* bytes of a digit; swap_bytes                                        *)
+(* ================================================================== *)
+
+Lemma u_to_le_bytes_length k : forall x, length (u_to_le_bytes k x) = k.
+Proof. induction k as [|k IH]; intros x; [reflexivity|]. cbn [u_to_le_bytes length]. rewrite IH. reflexivity. Qed.
+
+Lemma u_to_le_bytes_ok k : forall x, bytes_ok (u_to_le_bytes k x).
+Proof.
+  induction k as [|k IH]; intros x; [constructor|]. cbn [u_to_le_bytes]. constructor; [|apply IH].
+  unfold byte_ok. apply Z.mod_pos_bound. lia.
+Qed.
+
+Lemma le_value_to_le_bytes k : forall x, 0 <= x < P256 k -> le_value (u_to_le_bytes k x) = x.
+Proof.
+  induction k as [|k IH]; intros x Hx.
+  - rewrite P256_0 in Hx. cbn [u_to_le_bytes]. rewrite le_value_nil. lia.
+  - rewrite P256_S in Hx. cbn [u_to_le_bytes]. rewrite le_value_cons, IH.
+    + pose proof (Z.div_mod x 256 ltac:(lia)). lia.
+    + split; [apply Z.div_pos; lia | apply Z.div_lt_upper_bound; lia].
+Qed.
+
+Lemma le_value_uval8 bs : le_value bs = uval 8 bs.
+Proof.
+  induction bs as [|b r IH]; [reflexivity|]. rewrite le_value_cons. cbn [uval]. change (B 8) with 256. rewrite IH. reflexivity.
+Qed.
+
+(* a byte string is determined by its length and its value *)
+Lemma le_value_inj a b : bytes_ok a -> bytes_ok b -> length a = length b -> le_value a = le_value b -> a = b.
+Proof.
+  intros Ha Hb Hl He. rewrite !le_value_uval8 in He.
+  apply (uval_inj 8 (length a)); [lia | split; [reflexivity | exact Ha] | split; [symmetry; exact Hl | exact Hb] | exact He].
+Qed.
+
+Lemma to_le_bytes_le_value bs : bytes_ok bs -> u_to_le_bytes (length bs) (le_value bs) = bs.
+Proof.
+  intros H. apply le_value_inj; [apply u_to_le_bytes_ok | exact H | apply u_to_le_bytes_length |].
+  apply le_value_to_le_bytes. apply le_value_bounds. exact H.
+Qed.
+
+Lemma rev_bytes_value k : forall x, rev_bytes k x = be_value (u_to_le_bytes k x).
+Proof.
+  induction k as [|k IH]; intros x; [reflexivity|].
+  cbn [rev_bytes u_to_le_bytes]. rewrite be_value_cons, u_to_le_bytes_length, IH. reflexivity.
+Qed.
+
+Lemma u_swap_bytes_value w d : u_swap_bytes w d = le_value (rev (u_to_le_bytes (dbytes w) d)).
+Proof. unfold u_swap_bytes. fold (dbytes w). rewrite rev_bytes_value, be_value_rev. reflexivity. Qed.
+
+(* the bytes of the swapped digit are the bytes of the digit in reverse order *)
+Lemma u_swap_bytes_bytes w d :
+  u_to_le_bytes (dbytes w) (u_swap_bytes w d) = rev (u_to_le_bytes (dbytes w) d).
+Proof.
+  rewrite u_swap_bytes_value.
+  rewrite <- (u_to_le_bytes_length (dbytes w) d) at 1. rewrite <- rev_length.
+  apply to_le_bytes_le_value. apply bytes_ok_rev, u_to_le_bytes_ok.
+Qed.
+
+Lemma u_swap_bytes_ok w d : width_ok w -> digit_ok w (u_swap_bytes w d).
+Proof.
+  intros Hw. unfold digit_ok. rewrite u_swap_bytes_value, B_P256 by assumption.
+  pose proof (le_value_bounds _ (bytes_ok_rev _ (u_to_le_bytes_ok (dbytes w) d))) as H.
+  rewrite rev_length, u_to_le_bytes_length in H. exact H.
+Qed.
+
+Lemma u_swap_bytes_involutive w d : width_ok w -> digit_ok w d -> u_swap_bytes w (u_swap_bytes w d) = d.
+Proof.
+  intros Hw Hd. rewrite (u_swap_bytes_value w (u_swap_bytes w d)), u_swap_bytes_bytes, rev_involutive.
+  apply le_value_to_le_bytes. unfold digit_ok in Hd. rewrite B_P256 in Hd by assumption. exact Hd.
+Qed.
+
+Lemma swap_bytes_wf w n a : width_ok w -> wf w n a -> wf w n (swap_bytes w a).
+Proof.
+  intros Hw [Hl _]. unfold swap_bytes. split; [rewrite map_length, rev_length; exact Hl|].
+  apply Forall_forall. intros x Hx. apply in_map_iff in Hx. destruct Hx as (d & <- & _). apply u_swap_bytes_ok. exact Hw.
+Qed.
+
+Theorem swap_bytes_involutive w n a : width_ok w -> wf w n a -> swap_bytes w (swap_bytes w a) = a.
+Proof.
+  intros Hw [_ Hf]. unfold swap_bytes. rewrite <- map_rev, rev_involutive, map_map.
+  rewrite <- (map_id a) at 2. apply map_ext_in. intros d Hd.
+  apply u_swap_bytes_involutive; [exact Hw|]. rewrite Forall_forall in Hf. apply Hf. exact Hd.
+Qed.
+
+Lemma rev_flat_map {A C} (f : A -> list C) l : rev (flat_map f l) = flat_map (fun x => rev (f x)) (rev l).
+Proof.
+  induction l as [|x l IH]; [reflexivity|]. cbn [flat_map rev].
+  rewrite rev_app_distr, IH, flat_map_app. cbn [flat_map]. rewrite app_nil_r. reflexivity.
+Qed.
+
+Lemma flat_map_map {A C D} (g : A -> C) (f : C -> list D) l : flat_map f (map g l) = flat_map (fun x => f (g x)) l.
+Proof. induction l as [|x l IH]; [reflexivity|]. cbn [map flat_map]. rewrite IH. reflexivity. Qed.
+
+(* swap_bytes reverses the byte image of the whole number *)
+Theorem swap_bytes_bytes w a : U_to_le_bytes w (swap_bytes w a) = rev (U_to_le_bytes w a).
+Proof.
+  unfold U_to_le_bytes, swap_bytes. rewrite flat_map_map, rev_flat_map.
+  apply flat_map_ext. intros d. apply u_swap_bytes_bytes.
+Qed.
+
+(* ================================================================== *)
+(* to_*_bytes / from_*_bytes                                           *)
+(* ================================================================== *)
+
+Lemma U_to_le_bytes_length w a : length (U_to_le_bytes w a) = (length a * dbytes w)%nat.
+Proof.
+  unfold U_to_le_bytes. induction a as [|d r IH]; [reflexivity|].
+  cbn [flat_map length]. rewrite app_length, u_to_le_bytes_length, IH. lia.
+Qed.
+
+Lemma U_to_le_bytes_ok w a : bytes_ok (U_to_le_bytes w a).
+Proof.
+  unfold U_to_le_bytes. induction a as [|d r IH]; [constructor|].
+  cbn [flat_map]. apply bytes_ok_app. split; [apply u_to_le_bytes_ok | exact IH].
+Qed.
+
+(* the bytes denote the value (unsigned reading of the two's complement pattern) *)
+Theorem U_to_le_bytes_value w n a : width_ok w -> wf w n a -> le_value (U_to_le_bytes w a) = uval w a.
+Proof.
+  intros Hw [_ Hf]. unfold U_to_le_bytes. induction Hf as [|d r Hd Hr IH]; [reflexivity|].
+  cbn [flat_map uval]. rewrite le_value_app, u_to_le_bytes_length, IH, <- B_P256 by assumption.
+  rewrite le_value_to_le_bytes; [reflexivity|]. unfold digit_ok in Hd. rewrite <- B_P256 by assumption. exact Hd.
+Qed.
+
+Lemma fold_prepend {A C} (g : A -> list C) l : forall acc,
+  fold_left (fun acc d => g d ++ acc) l acc = flat_map g (rev l) ++ acc.
+Proof.
+  induction l as [|x l IH]; intros acc; [reflexivity|].
+  cbn [fold_left rev]. rewrite IH, flat_map_app. cbn [flat_map]. rewrite app_nil_r, <- app_assoc. reflexivity.
+Qed.
+
+Theorem U_to_be_bytes_rev w a : U_to_be_bytes w a = rev (U_to_le_bytes w a).
+Proof.
+  unfold U_to_be_bytes, U_to_le_bytes. rewrite fold_prepend, app_nil_r, rev_flat_map. reflexivity.
+Qed.
+
+Lemma U_from_le_bytes_wf w n bs : width_ok w -> bytes_ok bs -> wf w n (U_from_le_bytes w n bs).
+Proof.
+  intros Hw Hb. unfold U_from_le_bytes. split; [rewrite map_length, seq_length; reflexivity|].
+  apply Forall_forall. intros x Hx. apply in_map_iff in Hx. destruct Hx as (i & <- & _).
+  apply (le_digit_ok w bs i Hw Hb).
+Qed.
+
+Theorem U_from_le_bytes_value w n bs : width_ok w -> length bs = (n * dbytes w)%nat ->
+  uval w (U_from_le_bytes w n bs) = le_value bs.
+Proof.
+  intros Hw Hl. rewrite (le_chunks w bs n Hw ltac:(lia)). rewrite skipn_all2 by lia. rewrite le_value_nil.
+  unfold U_from_le_bytes, le_digit. lia.
+Qed.
+
+Theorem U_from_le_to_le_bytes w n a : width_ok w -> wf w n a -> U_from_le_bytes w n (U_to_le_bytes w a) = a.
+Proof.
+  intros Hw Ha. assert (Hw0 : 0 <= w) by (destruct Hw; lia).
+  apply (uval_inj w n); [lia | apply U_from_le_bytes_wf; [exact Hw | apply U_to_le_bytes_ok] | exact Ha |].
+  rewrite U_from_le_bytes_value by (auto; rewrite U_to_le_bytes_length, (wf_length _ _ _ Ha); reflexivity).
+  apply (U_to_le_bytes_value w n); assumption.
+Qed.
+
+Theorem U_to_le_from_le_bytes w n bs : width_ok w -> bytes_ok bs -> length bs = (n * dbytes w)%nat ->
+  U_to_le_bytes w (U_from_le_bytes w n bs) = bs.
+Proof.
+  intros Hw Hb Hl. pose proof (U_from_le_bytes_wf w n bs Hw Hb) as Hwf.
+  apply le_value_inj; [apply U_to_le_bytes_ok | exact Hb | |].
+  - rewrite U_to_le_bytes_length, (wf_length _ _ _ Hwf). lia.
+  - rewrite (U_to_le_bytes_value w n) by assumption. apply U_from_le_bytes_value; assumption.
+Qed.
+
+Lemma U_from_be_bytes_rev w n bs : length bs = (n * dbytes w)%nat ->
+  U_from_be_bytes w n bs = U_from_le_bytes w n (rev bs).
+Proof.
+  intros Hl. unfold U_from_be_bytes, U_from_le_bytes. apply map_seq_ext. intros k Hk.
+  rewrite <- Hl. rewrite be_digit_rev by nia. reflexivity.
+Qed.
+
+Theorem U_from_be_to_be_bytes w n a : width_ok w -> wf w n a -> U_from_be_bytes w n (U_to_be_bytes w a) = a.
+Proof.
+  intros Hw Ha. rewrite U_from_be_bytes_rev.
+  - rewrite U_to_be_bytes_rev, rev_involutive. apply U_from_le_to_le_bytes; assumption.
+  - rewrite U_to_be_bytes_rev, rev_length, U_to_le_bytes_length, (wf_length _ _ _ Ha). reflexivity.
+Qed.
+
+Theorem U_to_be_from_be_bytes w n bs : width_ok w -> bytes_ok bs -> length bs = (n * dbytes w)%nat ->
+  U_to_be_bytes w (U_from_be_bytes w n bs) = bs.
+Proof.
+  intros Hw Hb Hl. rewrite U_from_be_bytes_rev by assumption. rewrite U_to_be_bytes_rev.
+  rewrite U_to_le_from_le_bytes by (auto using bytes_ok_rev; rewrite rev_length; assumption).
+  apply rev_involutive.
+Qed.
+
+Theorem U_to_be_bytes_value w n a : width_ok w -> wf w n a -> be_value (U_to_be_bytes w a) = uval w a.
+Proof.
+  intros Hw Ha. rewrite U_to_be_bytes_rev, be_value_rev, rev_involutive. apply (U_to_le_bytes_value w n); assumption.
+Qed.
+
+(* signed reading: the bytes are the two's complement bytes of sval *)
+Theorem I_to_le_bytes_signed_value w n a : width_ok w -> (1 <= n)%nat -> wf w n a ->
+  le_signed_value (I_to_le_bytes w a) = sval w a.
+Proof.
+  intros Hw Hn Ha. destruct (width_db w Hw) as [_ Hdb]. unfold I_to_le_bytes.
+  pose proof (U_to_le_bytes_length w a) as Hl. rewrite (wf_length _ _ _ Ha) in Hl.
+  pose proof (U_to_le_bytes_ok w a) as Hok. pose proof (U_to_le_bytes_value w n a Hw Ha) as Hv.
+  set (bs := U_to_le_bytes w a) in *.
+  assert (Hne : bs <> []) by (intros E; rewrite E in Hl; cbn [length] in Hl; nia).
+  destruct (exists_last Hne) as (bs' & t & E).
+  assert (Hl' : S (length bs') = (n * dbytes w)%nat) by (rewrite E, app_length in Hl; cbn [length] in Hl; lia).
+  rewrite E in Hok. pose proof (le_top_byte bs' t Hok) as Htop. rewrite <- E in Htop.
+  rewrite E at 1. rewrite le_signed_value_snoc, <- E, Htop, Hv.
+  unfold sval, to_signed. rewrite (wf_length _ _ _ Ha), Mod_P256, <- Hl' by assumption.
+  destruct (Z.leb_spec (P256 (S (length bs')) / 2) (uval w a)); destruct (Z.ltb_spec (uval w a) (P256 (S (length bs')) / 2)); lia.
+Qed.
+
+(* ================================================================== *)
+(* readable corollaries                                                *)
+(* ================================================================== *)
+
+Lemma digits_of_unsigned w n v : 0 < w -> 0 <= v < Mod w n ->
+  wf w n (digits_of w n v) /\ uval w (digits_of w n v) = v.
+Proof.
+  intros Hw Hv. split; [apply digits_of_wf; exact Hw|]. rewrite digits_of_uval by exact Hw. apply Z.mod_small. exact Hv.
+Qed.
+
+Lemma digits_of_signed w n v : 0 < w -> (1 <= n)%nat -> inS (Mod w n) v = true ->
+  wf w n (digits_of w n (v mod Mod w n)) /\ sval w (digits_of w n (v mod Mod w n)) = v.
+Proof.
+  intros Hw Hn Hv. pose proof (digits_of_wf w n (v mod Mod w n) Hw) as Hwf. split; [exact Hwf|].
+  pose proof (Mod_pos w n ltac:(lia)) as HM. pose proof (Mod_even w n Hw Hn) as He.
+  unfold sval. rewrite (wf_length _ _ _ Hwf), digits_of_uval, Z.mod_mod by lia.
+  rewrite to_signed_of_mod by assumption. apply wrapS_id; [assumption | assumption | apply inS_true; exact Hv].
+Qed.
+
+Lemma be_value_bounds bs : bytes_ok bs -> 0 <= be_value bs < P256 (length bs).
+Proof. intros H. rewrite be_value_rev, <- rev_length. apply le_value_bounds, bytes_ok_rev, H. Qed.
+
+(* Some r <-> r is the well-formed array denoting the value; None <-> the value does not fit *)
+Theorem U_from_be_slice_denotes w n bs : width_ok w -> bytes_ok bs ->
+  match U_from_be_slice w n bs with
+  | Some r => wf w n r /\ uval w r = be_value bs
+  | None => Mod w n <= be_value bs
+  end.
+Proof.
+  intros Hw Hb. rewrite U_from_be_slice_ok by assumption. pose proof (be_value_bounds bs Hb).
+  destruct (Z.ltb_spec (be_value bs) (Mod w n)); [apply digits_of_unsigned; destruct Hw; lia | assumption].
+Qed.
+
+Theorem U_from_le_slice_denotes w n bs : width_ok w -> bytes_ok bs ->
+  match U_from_le_slice w n bs with
+  | Some r => wf w n r /\ uval w r = le_value bs
+  | None => Mod w n <= le_value bs
+  end.
+Proof.
+  intros Hw Hb. rewrite U_from_le_slice_ok by assumption. pose proof (le_value_bounds bs Hb).
+  destruct (Z.ltb_spec (le_value bs) (Mod w n)); [apply digits_of_unsigned; destruct Hw; lia | assumption].
+Qed.
+
+Theorem I_from_be_slice_denotes w n bs : width_ok w -> (1 <= n)%nat -> bytes_ok bs ->
+  match I_from_be_slice w n bs with
+  | Some r => wf w n r /\ sval w r = be_signed_value bs
+  | None => ~ (- (Mod w n / 2) <= be_signed_value bs < Mod w n / 2)
+  end.
+Proof.
+  intros Hw Hn Hb. rewrite I_from_be_slice_ok by assumption.
+  destruct (inS (Mod w n) (be_signed_value bs)) eqn:E.
+  - apply digits_of_signed; [destruct Hw; lia | assumption | assumption].
+  - apply inS_false. exact E.
+Qed.
+
+Theorem I_from_le_slice_denotes w n bs : width_ok w -> (1 <= n)%nat -> bytes_ok bs ->
+  match I_from_le_slice w n bs with
+  | Some r => wf w n r /\ sval w r = le_signed_value bs
+  | None => ~ (- (Mod w n / 2) <= le_signed_value bs < Mod w n / 2)
+  end.
+Proof.
+  intros Hw Hn Hb. rewrite I_from_le_slice_ok by assumption.
+  destruct (inS (Mod w n) (le_signed_value bs)) eqn:E.
+  - apply digits_of_signed; [destruct Hw; lia | assumption | assumption].
+  - apply inS_false. exact E.
+Qed.
+
+(* padding: leading zero bytes do not change the unsigned value; leading copies of the sign
+   byte (0x00 / 0xff according to the top bit of the first byte) do not change the signed value *)
+Lemma be_value_repeat0 k : be_value (repeat 0 k) = 0.
+Proof. rewrite be_value_rev, rev_repeat. apply le_value_repeat0. Qed.
+
+Lemma be_value_repeat255 k : be_value (repeat 255 k) = P256 k - 1.
+Proof. rewrite be_value_rev, rev_repeat. apply le_value_repeat255. Qed.
+
+Theorem be_value_zero_pad k bs : be_value (repeat 0 k ++ bs) = be_value bs.
+Proof. rewrite be_value_app, be_value_repeat0. lia. Qed.
+
+Theorem be_signed_value_sign_pad k b bs : byte_ok b ->
+  be_signed_value (repeat (if 128 <=? b then 255 else 0) k ++ b :: bs) = be_signed_value (b :: bs).
+Proof.
+  intros Hb. destruct k as [|k]; [reflexivity|].
+  unfold be_signed_value at 1. cbn [repeat app].
+  change ((if 128 <=? b then 255 else 0) :: repeat (if 128 <=? b then 255 else 0) k ++ b :: bs)
+    with (repeat (if 128 <=? b then 255 else 0) (S k) ++ b :: bs).
+  rewrite be_value_app, app_length, repeat_length, P256_add. unfold be_signed_value.
+  destruct (Z.leb_spec 128 b).
+  - change (128 <=? 255) with true. cbv iota. rewrite be_value_repeat255. ring.
+  - change (128 <=? 0) with false. cbv iota. rewrite be_value_repeat0. ring.
+Qed.
+
+Theorem U_from_be_slice_zero_pad w n k bs : width_ok w -> bytes_ok bs ->
+  U_from_be_slice w n (repeat 0 k ++ bs) = U_from_be_slice w n bs.
+Proof.
+  intros Hw Hb. rewrite !U_from_be_slice_ok, be_value_zero_pad; auto.
+  apply bytes_ok_app. split; [apply bytes_ok_repeat; unfold byte_ok; lia | exact Hb].
+Qed.
+
+Theorem I_from_be_slice_sign_pad w n k b bs : width_ok w -> (1 <= n)%nat -> bytes_ok (b :: bs) ->
+  I_from_be_slice w n (repeat (if 128 <=? b then 255 else 0) k ++ b :: bs) = I_from_be_slice w n (b :: bs).
+Proof.
+  intros Hw Hn Hb. assert (Hb0 : byte_ok b) by (inversion Hb; assumption).
+  rewrite !I_from_be_slice_ok, be_signed_value_sign_pad; auto.
+  apply bytes_ok_app. split; [apply bytes_ok_repeat; unfold byte_ok; destruct (128 <=? b); lia | exact Hb].
+Qed.
+
+Theorem from_slice_empty w n : width_ok w -> (1 <= n)%nat ->
+  U_from_be_slice w n [] = Some (ZERO n) /\ U_from_le_slice w n [] = Some (ZERO n) /\
+  I_from_be_slice w n [] = Some (ZERO n) /\ I_from_le_slice w n [] = Some (ZERO n).
+Proof.
+  intros Hw Hn. assert (Hw0 : 0 < w) by (destruct Hw; lia). pose proof (Mod_pos w n ltac:(lia)) as HM.
+  rewrite U_from_be_slice_ok, U_from_le_slice_ok by (auto; constructor).
+  change (be_value []) with 0. change (le_value []) with 0.
+  destruct (Z.ltb_spec 0 (Mod w n)); [|lia]. rewrite digits_of_0 by assumption. repeat split; reflexivity.
+Qed.
+
+(* ---------- to_be / from_be / to_le / from_le ---------- *)
+
+Theorem to_be_from_be_spec w n a : width_ok w -> wf w n a ->
+  U_to_be w a = swap_bytes w a /\ U_from_be w a = swap_bytes w a /\
+  U_from_be w (U_to_be w a) = a /\ U_to_be w (U_from_be w a) = a /\
+  wf w n (U_to_be w a) /\
+  U_to_le_bytes w (U_to_be w a) = rev (U_to_le_bytes w a) /\
+  be_value (U_to_le_bytes w (U_to_be w a)) = uval w a /\
+  I_to_be w a = swap_bytes w a /\ I_from_be w a = swap_bytes w a /\
+  I_from_be w (I_to_be w a) = a /\ I_to_be w (I_from_be w a) = a.
+Proof.
+  intros Hw Ha. unfold I_to_be, I_from_be, U_to_be, U_from_be.
+  pose proof (swap_bytes_involutive w n a Hw Ha) as Hi.
+  repeat match goal with |- _ /\ _ => split end; try reflexivity; try exact Hi.
+  - apply swap_bytes_wf; assumption.
+  - apply swap_bytes_bytes.
+  - rewrite swap_bytes_bytes, be_value_rev, rev_involutive. apply (U_to_le_bytes_value w n); assumption.
+Qed.
+
+Theorem to_le_from_le_spec (a : list Z) :
+  U_to_le a = a /\ U_from_le a = a /\ I_to_le a = a /\ I_from_le a = a.
+Proof. repeat match goal with |- _ /\ _ => split end; reflexivity. Qed.
+
+(* ---------- nightly: *_bytes ---------- *)
+
+Theorem bytes_roundtrip w n a : width_ok w -> wf w n a ->
+  U_from_le_bytes w n (U_to_le_bytes w a) = a /\
+  U_from_be_bytes w n (U_to_be_bytes w a) = a /\
+  U_from_ne_bytes w n (U_to_ne_bytes w a) = a /\
+  I_from_le_bytes w n (I_to_le_bytes w a) = a /\
+  I_from_be_bytes w n (I_to_be_bytes w a) = a /\
+  I_from_ne_bytes w n (I_to_ne_bytes w a) = a.
+Proof.
+  intros Hw Ha. unfold I_from_le_bytes, I_to_le_bytes, I_from_be_bytes, I_to_be_bytes, I_from_ne_bytes, I_to_ne_bytes,
+    U_from_ne_bytes, U_to_ne_bytes.
+  pose proof (U_from_le_to_le_bytes w n a Hw Ha). pose proof (U_from_be_to_be_bytes w n a Hw Ha). tauto.
+Qed.
+
+Theorem bytes_roundtrip_inv w n bs : width_ok w -> bytes_ok bs -> length bs = (n * dbytes w)%nat ->
+  U_to_le_bytes w (U_from_le_bytes w n bs) = bs /\
+  U_to_be_bytes w (U_from_be_bytes w n bs) = bs /\
+  U_to_ne_bytes w (U_from_ne_bytes w n bs) = bs /\
+  wf w n (U_from_le_bytes w n bs) /\ wf w n (U_from_be_bytes w n bs) /\
+  uval w (U_from_le_bytes w n bs) = le_value bs /\ uval w (U_from_be_bytes w n bs) = be_value bs.
+Proof.
+  intros Hw Hb Hl. unfold U_from_ne_bytes, U_to_ne_bytes.
+  pose proof (U_to_le_from_le_bytes w n bs Hw Hb Hl). pose proof (U_to_be_from_be_bytes w n bs Hw Hb Hl).
+  pose proof (U_from_le_bytes_wf w n bs Hw Hb).
+  assert (Hr : length (rev bs) = (n * dbytes w)%nat) by (rewrite rev_length; exact Hl).
+  repeat match goal with |- _ /\ _ => split end; try assumption; try tauto.
+  - rewrite U_from_be_bytes_rev by assumption. apply U_from_le_bytes_wf; auto using bytes_ok_rev.
+  - apply U_from_le_bytes_value; assumption.
+  - rewrite U_from_be_bytes_rev by assumption. rewrite U_from_le_bytes_value by assumption. apply le_value_rev.
+Qed.
+
+Theorem bytes_denote w n a : width_ok w -> (1 <= n)%nat -> wf w n a ->
+  length (U_to_le_bytes w a) = (n * dbytes w)%nat /\ bytes_ok (U_to_le_bytes w a) /\
+  U_to_be_bytes w a = rev (U_to_le_bytes w a) /\ U_to_ne_bytes w a = U_to_le_bytes w a /\
+  le_value (U_to_le_bytes w a) = uval w a /\ be_value (U_to_be_bytes w a) = uval w a /\
+  le_signed_value (I_to_le_bytes w a) = sval w a /\ be_signed_value (I_to_be_bytes w a) = sval w a.
+Proof.
+  intros Hw Hn Ha. repeat match goal with |- _ /\ _ => split end.
+  - rewrite U_to_le_bytes_length, (wf_length _ _ _ Ha). reflexivity.
+  - apply U_to_le_bytes_ok.
+  - apply U_to_be_bytes_rev.
+  - reflexivity.
+  - apply (U_to_le_bytes_value w n); assumption.
+  - apply (U_to_be_bytes_value w n); assumption.
+  - apply (I_to_le_bytes_signed_value w n); assumption.
+  - unfold I_to_be_bytes. rewrite U_to_be_bytes_rev, <- le_signed_value_rev, rev_involutive.
+    apply (I_to_le_bytes_signed_value w n); assumption.
+Qed.
+
+Theorem from_le_slice_is_be_on_rev w n bs : width_ok w ->
+  U_from_le_slice w n bs = U_from_be_slice w n (rev bs) /\
+  I_from_le_slice w n bs = I_from_be_slice w n (rev bs).
+Proof.
+  intros Hw. rewrite U_from_be_slice_rev, I_from_be_slice_rev, rev_involutive by assumption. split; reflexivity.
+Qed.
